@@ -75,6 +75,18 @@ class C13(PropertyCheck):
             yield {"N": N, "world": W, "mode": mode, "kind": kind, "seed": seed + N, "init_epoch": 1,
                    "consumed": 1, "neg_rank": True}
 
+        # ONE seed shared by samplers of different sizes built in the same process (the cases above give every
+        # size its own seed): a cache that outlives the object, keyed on (seed, epoch, something coarser than N)
+        # - e.g. the per-rank length - hands a later sampler another data set's permutation (seed C13-h1)
+        for N, W, mode in itertools.product(Ns, (0, 2, 3), ("raise", "drop", "uneven", "ignore")):
+            yield {"N": N, "world": W, "mode": mode, "kind": "random", "seed": seed, "init_epoch": 0,
+                   "consumed": 1, "shared_seed": True}
+        # sizes around the limits of narrow integer types (seed C13-h2: an int16 index buffer for N <= 65536)
+        big = (32767, 32769, 65536) if tier == "quick" else (255, 257, 32767, 32768, 32769, 40000, 65535, 65536, 65537)
+        for N, (W, mode) in itertools.product(big, ((0, "raise"), (2, "uneven"), (3, "drop"))):
+            yield {"N": N, "world": W, "mode": mode, "kind": "random", "seed": seed + 7, "init_epoch": 0,
+                   "consumed": 0, "big": True}
+
     # ------------------------------------------------------------------ implementation
     def oracle_perms(self, case):
         with fake_dist(0, 0):
@@ -136,9 +148,14 @@ class C13(PropertyCheck):
         return "raise" if case["mode"] == "default" else case["mode"]
 
     def model_request(self, case):
+        perms = self.oracle_perms(case)
+        if any(sorted(q) != list(range(case["N"])) for q in perms):
+            # the ordering the code produces is not a permutation of range(N) (the model's `IsOrdering` premise):
+            # nothing to compare with; the predicate reports it with the offending entries
+            return None
         return {"op": "c13.group", "case": {
             "N": case["N"], "mode": self.eff_mode(case), "world": 0 if case.get("neg_rank") else case["world"],
-            "init_epoch": case["init_epoch"], "perms": self.oracle_perms(case)}}
+            "init_epoch": case["init_epoch"], "perms": perms}}
 
     def compare(self, case, impl, model):
         out = []
@@ -153,7 +170,8 @@ class C13(PropertyCheck):
             if a["len"] != b["len"]:
                 out.append(f"rank {r}: len impl={a['len']} model={b['len']}")
             if a["yields"] != b["yields"]:
-                out.append(f"rank {r}: yields impl={a['yields']} model={b['yields']}")
+                sh = (lambda v: v) if case["N"] <= 40 else (lambda v: str(v)[:200] + " ...")
+                out.append(f"rank {r}: yields impl={sh(a['yields'])} model={sh(b['yields'])}")
             if a["lazy_yields"] != b["yields"]:
                 out.append(f"rank {r}: lazily consumed yields impl={a['lazy_yields']} model={b['yields']}")
             want = [b["yields"][0], b["yields"][-1], b["yields"][-1], b["yields"][0]]
@@ -172,7 +190,9 @@ class C13(PropertyCheck):
         perms = self.oracle_perms(case)
         for p in perms:
             if sorted(p) != list(range(N)):
-                fails.append((f"epoch ordering is not a permutation of range({N}): {p}", None))
+                bad = [x for x in p if not 0 <= x < N][:5]
+                fails.append((f"epoch ordering is not a permutation of range({N}): "
+                              f"{p if N <= 40 else str(p[:10]) + ' ...'} (out of range: {bad})", None))
         ranks = impl["ranks"]
         grouped = W >= 1 and mode != "ignore" and not case.get("neg_rank")
         indivisible = grouped and N % W != 0
@@ -236,6 +256,11 @@ class C13(PropertyCheck):
         return t
 
     def shrink(self, case):
+        if case["N"] > 64:      # sizes around a type limit: towards the limit first, never by single steps
+            for n in (case["N"] // 2, case["N"] - case["N"] // 4, case["N"] - 256, case["N"] - 16):
+                if 0 < n < case["N"]:
+                    yield dict(case, N=n)
+            return
         for k in ("consumed", "init_epoch", "N", "world"):
             if case[k] > 0:
                 c = dict(case)
